@@ -101,24 +101,36 @@ func newSimApp(script string, seed int64) *simApp {
 		mk("spawn", func(ctx app.IOContext) error {
 			id, ms := arg(ctx)
 			var deps struct {
-				Runner pipservices.Runner `dependency:"PipRunner"`
+				Runner         pipservices.Runner         `dependency:"PipRunner"`
+				NamespacesUnit pipservices.NamespacesUnit `dependency:"PipNamespacesUnit"`
 			}
 			if err := sa.mapp.DependencyProvider().InjectTo(&deps); err != nil {
 				panic(harnessTrouble{"inject PipRunner: " + err.Error()})
+			}
+			// the namespaces of the scope the command runs in, as pip:run takes them: a task
+			// spawned from inside another task is a nested one
+			ns, err := deps.NamespacesUnit.FromScope(ctx.Scope(), namespaces.NewNamespaces(pipservices.NamasepacesParams{}))
+			if err != nil {
+				return err
 			}
 			sa.spawned++
 			body := fmt.Sprintf("begin --id=%s\nslowwork --id=%s --ms=%d\nend --id=%s\n", id, id, ms, id)
 			var opt struct {
 				FailID string `command:"?failid"`
+				Lock   string `command:"?lock"`
 			}
 			_ = ctx.Scope().InjectTo(&opt)
-			err := deps.Runner.Run(pipservices.Pip{
+			lockMap := commservices.LockMap{}
+			if opt.Lock != "" {
+				lockMap[opt.Lock] = commservices.LockRW // a spawned task that asks for a named lock of its own
+			}
+			err = deps.Runner.Run(pipservices.Pip{
 				Context: pipservices.PipContext{
 					In: gio.NewInput(strings.NewReader(body)), Out: gio.NewNilOutput(), Err: gio.NewNilOutput(),
 					CWD: ctx.IO().CWD(), Scope: ctx.Scope(),
 				},
-				Name: fmt.Sprintf("spawned%d", sa.spawned), Namespaces: namespaces.NewNamespaces(pipservices.NamasepacesParams{}), Sandbox: "self",
-				Lock: commservices.LockMap{}, Wait: nil,
+				Name: fmt.Sprintf("spawned%d", sa.spawned), Namespaces: ns, Sandbox: "self",
+				Lock: lockMap, Wait: nil,
 			})
 			if err == nil && opt.FailID != "" {
 				// ... and the spawning command then marks its scope as failed (an error appended to
